@@ -1,6 +1,6 @@
 (* Case type of the forkable family (C01, C02, C03, C04, C18) and the correspondence test
    "model run = observed run".  Each property adds its own checker over the observation. *)
-From BV Require Import Base.Prelude Model.Block Model.ForkDB Model.Forkable Model.ForkableLookups.
+From BV Require Import Base.Prelude Model.Block Model.ForkDB Model.Forkable Model.ForkableLookups Model.ForkableCache.
 Local Open Scope N_scope.
 
 Record look := mkLook {
@@ -46,6 +46,26 @@ Fixpoint model_matches (cfg : config) (s : fstate) (h : list block) (os : list o
 
 Definition fk_corresponds (k : fk_case) : bool :=
   model_matches (k_cfg k) (fs_init (k_mode k)) (k_hist k) (k_obs k) (k_qh k) (k_qi k).
+
+(* the same test for the model WITH the lastLongestChain cache (Model/ForkableCache.v): events, result and head of
+   every step *)
+Fixpoint model_matches_c (cfg : config) (sc : fstate * list seg) (h : list block) (os : list obs) : bool :=
+  match h, os with
+  | [], [] => true
+  | b :: rest, o :: os' =>
+      let '(sc', evs, r) := fk_step_c cfg sc b in
+      list_eqb event_eqb evs (o_events o) && result_eqb r (o_result o) &&
+      head_eqb (head_info (fst sc')) (o_head o) && (head_num (fst sc') =? o_headnum o) &&
+      (match r with
+       | ROk => model_matches_c cfg sc' rest os'
+       | _ => match os' with [] => true | _ => false end
+       end)
+  | _ :: _, [] => false
+  | [], _ :: _ => false
+  end.
+
+Definition fk_corresponds_c (k : fk_case) : bool :=
+  model_matches_c (k_cfg k) (fs_init (k_mode k), []) (k_hist k) (k_obs k).
 
 (* temporary: correspondence only *)
 Definition fk_corr_verdict (k : fk_case) : N := if fk_corresponds k then 0 else 1.
